@@ -1068,6 +1068,10 @@ def r103(P, u, T, rep):
                    'include_file can skip a file without reading it on a path where neither `#pragma once` was seen for this path nor the recorded guard macro is '
                    'known to be defined now: after `#undef GUARD` a second #include of the file must yield its text again (X-macro headers), the shortcut drops it',
                    where=where, facts={'path': ctx.trail, 'lookups': [(e[5], live[id(e)]) for e in gets]})
+            wr = calls(ctx, 'hashmap_put')
+            rep.ob('R10.3', '%s:%s:shortcut-records-nothing' % (U, fn), not wr,
+                   'on a path that skips the file without reading it include_file writes to table %s: what is memoised there outlives the condition that justified this skip '
+                   '(a guard macro that is defined now may be #undef-ed before the next #include)' % ([e[5] for e in wr],), where=where, facts={'path': ctx.trail})
             rep.ob('R10.3', '%s:%s:shortcut-keeps-rest' % (U, fn), settle(it, o[1]) is ctx.a_tok,
                    'when a file is skipped the rest of the including file is not handed back unchanged', where=where)
             continue
